@@ -179,6 +179,39 @@ theorem accounting {s : Arena} (hI : Inv s) :
     s.spaceUsed = (s.blocks.map (·.bytes)).sum :=
   ⟨hI.core.acctAlloc, hI.acctUsed⟩
 
+/-! ## shared / swiss variants -/
+
+/-- **shared_release_destructors_first.**  `SharedMonotonicBufferResource::release()` (= the swiss
+one) over *all* per-thread resources: its trace splits into a first part in which every destructor
+registered through any thread runs exactly once (per thread newest first) and nothing is returned,
+and a second part without destructors in which every page and every upstream block of every
+per-thread resource is returned exactly once as obtained; afterwards every per-thread resource is
+fresh (accounts zero, reusable).  So a destructor registered through thread B still sees the blocks
+allocated through thread A.  (The two-pass shape is pinned by `gen_stmts_shared_release`.) -/
+theorem shared_release_destructors_first (subs : List Arena) (hI : ∀ s ∈ subs, Inv s) :
+    ∃ pre post, (sharedRelease subs).2 = pre ++ post ∧
+      dtorRuns pre = subs.flatMap (·.dtors) ∧ (∀ ev ∈ pre, ev.isFree = false) ∧
+      dtorRuns post = [] ∧ pageFrees post = subs.flatMap (·.pagesHeld) ∧ upFrees post = subs.flatMap (·.ovHeld) ∧
+      (sharedRelease subs).1 = subs.map (fun s => Arena.fresh s.pa s.pageSize s.up) :=
+  sharedRelease_spec subs hI
+
+/-- **shared_release_no_read_after_free.**  With the per-thread resources on one page allocator and
+their regions mutually disjoint, the shared `release()` never reads a bookkeeping field from memory
+returned earlier in the same call — its own or another thread's. -/
+theorem shared_release_no_read_after_free (ps : Nat) (subs : List Arena) (hI : ∀ s ∈ subs, Inv s)
+    (hps : ∀ s ∈ subs, s.pageSize = ps)
+    (hcross : subs.Pairwise (fun a b => ∀ r ∈ regions a, ∀ q ∈ regions b, Disj r q)) :
+    NoReadAfterFree ps (sharedRelease subs).2 :=
+  sharedRelease_noRAF ps subs hI hps hcross
+
+/-- **shared_threads_disjoint.**  Blocks handed out by two different per-thread resources whose
+regions are disjoint never overlap (any two members of the per-thread family; each thread allocates
+only from its own resource: `gen_stmts_shared_release`, C19 slot privacy). -/
+theorem shared_threads_disjoint {s t : Arena} (hs : Inv s) (ht : Inv t)
+    (hcross : ∀ r ∈ regions s, ∀ q ∈ regions t, Disj r q) :
+    ∀ x ∈ s.blocks, ∀ y ∈ t.blocks, Disj x.seg y.seg :=
+  fun _ hx _ hy => cross_blocks_disj hs ht hcross hx hy
+
 /-- The model's arithmetic `alignUp` is the source's mask expression `(x + a - 1) & -a` evaluated in
 64-bit unsigned arithmetic, for every power-of-two alignment and every address that does not
 overflow (used by `do_align`, by the rounding of `bytes` in both array placements). -/
@@ -232,6 +265,14 @@ theorem gen_stmts_release :
     stmts_release = Skel.stmts_release ∧ stmts_destruct_all = Skel.stmts_destruct_all := by decide
 theorem gen_stmts_contains : stmts_contains = Skel.stmts_contains := by decide
 
+set_option maxRecDepth 8192 in
+/-- Generated obligation: the shared `release()` makes two passes over the per-thread resources —
+`destruct_all()` on every one, then `release()` on every one — the swiss one only clears its arena
+pointer before delegating, and a thread allocates from its own per-thread resource. -/
+theorem gen_stmts_shared_release :
+    stmts_shared_release = Skel.stmts_shared_release ∧ stmts_swiss_release = Skel.stmts_swiss_release ∧
+    stmts_shared_do_allocate = Skel.stmts_shared_do_allocate := by decide
+
 
 /-! ## non-vacuity -/
 
@@ -270,6 +311,15 @@ example : (runOps Sys.next demoInit (demoOps.take 9)).b.blocks.length = 8 ∧
 example : pageFrees ((runOps Sys.next demoInit (demoOps.take 9)).b.release.2) = [(0, 8192), (0, 4096), (0, 2048), (0, 1024)] ∧
     upFrees ((runOps Sys.next demoInit (demoOps.take 9)).b.release.2) = [(0, ⟨131072, 200, 512⟩), (0, ⟨65536, 688, 64⟩)] ∧
     dtorRuns ((runOps Sys.next demoInit (demoOps.take 9)).b.release.2) = [7] := by decide
+
+/-- the shared release on two per-thread resources with registered destructors: both destructors
+run before the first page goes back -/
+example :
+    let a := (Arena.fresh 0 512 0).register 1 ⟨1024, 0, 0⟩
+    let b := (Arena.fresh 0 512 0).register 2 ⟨2048, 0, 0⟩
+    (sharedRelease [a.1, b.1]).2.filterMap (fun ev => match ev with
+      | .dtor t => some (Sum.inl t) | .pageFree _ p => some (Sum.inr p) | _ => none)
+      = [.inl 1, .inl 2, .inr 1024, .inr 2048] := by decide
 
 example : SysInv (runOps Sys.next demoInit demoOps) :=
   arena_inv 0 256 0 1 128 1 ⟨8, rfl⟩ (by decide) ⟨7, rfl⟩ (by decide) demoOps demo_valid
